@@ -116,4 +116,30 @@ CLAIMED["C07"] = {
   "note": "PARTIAL: the general soundness/completeness statement over all programs is not proved.",
   "technique": "Coq proof (one-step parser lemmas + exhaustive table by computation) + implementation run of the same table",
 }
+CLAIMED["C08"] = {
+  "text": "Theorems over a model of Bash's double-quote expansion (validated against /bin/bash each run): a value held in a variable arrives unchanged in every "
+          "double-quoted word whatever bytes it holds; text embedded in eval strings is scanned exactly once; literals are spliced as they stand, hence opaque exactly "
+          "when they avoid the four characters Bash interprets (the rest is refuted and recorded). The full character x position x path x origin sweep runs through "
+          "the implementation and /bin/bash with a canary for executed data.",
+  "ref": "DESIGN.md section 5/C08",
+  "note": "PARTIAL: the statement over all programs and paths is not proved; literals with dollar, backquote, quote, backslash and values ending in a newline are known findings.",
+  "technique": "Coq proof (word-level opacity over a Bash expansion model) + exhaustive sweep through the implementation under /bin/bash",
+}
+CLAIMED["C17"] = {
+  "text": "Refinement theorem for every history: the emitted printf/cat/test lines implement the reference line store (same returned values, related file contents) "
+          "for contents that are non-empty and do not end in a newline; clause theorems (write-read, append, other paths untouched, exists); the excluded corner is "
+          "refuted. Random histories with special paths and contents run through the implementation, /bin/bash and real files, compared with the generator's line store, "
+          "the reference semantics and the Bash-level model.",
+  "ref": "DESIGN.md section 5/C17",
+  "note": "PARTIAL: the step from script lines to sh_step is by correspondence (fsh cases), not by proof.",
+  "technique": "Coq proof (refinement over operation histories) + history correspondence on the real file system",
+}
+CLAIMED["C18"] = {
+  "text": "Theorem over a model of Bash's treatment of a rendered argument: for computed values (any bytes) and for literals made of ordinary word characters or neutral text "
+          "with a blank, the program receives exactly n words with exactly the given bytes; outside that class the quoting heuristic is refuted (empty literal, "
+          "metacharacters, globs: known findings). Probe program runs decide arguments, pipelines, capture and exit status on generated calls.",
+  "ref": "DESIGN.md section 5/C18",
+  "note": "PARTIAL: pipes, capture and status are decided by runs only; Batch half by script-byte correspondence only.",
+  "technique": "Coq proof (argument vector exactness over a Bash word model) + probe-program runs through the implementation",
+}
 NOT_CLAIMED = {}
